@@ -144,6 +144,71 @@ def gen_large(rng, n, faults):
     return out
 
 
+def gen_qf(rng, n):
+    """client -> queuing sink -> buffered sink: emits, flushes through the queuing sink (F) and through the client (C),
+    with the worker parked (P .. G) so that a backlog exists while a flush is called"""
+    out = ["QF 16 E613a317c63,F,E623a327c63,P,E633a337c63,E643a347c63,F,G,C", "QF d E613a317c63,C",
+           "QF 8 E613a317c63,P,E62623a327c63,F,C,G,F", "QF 0 E61,F,P,E62,C,G"]
+    for i in range(n):
+        cap = rng.choice(["d", "0", "1", "8", "16", "24", "64"])
+        c = 512 if cap == "d" else int(cap)
+        ops, parked, armed = [], False, False
+        for j in range(rng.randint(2, 14)):
+            r = rng.random()
+            if r < 0.5:
+                ln = rng.choice([1, 3, c // 3, c - 2, c - 1, c, c + 3, 5])
+                m = ("m%d." % j).encode() + b"x" * max(0, ln - 4)
+                ops.append("E" + hexs(m))
+                if armed:
+                    parked, armed = True, False
+            elif r < 0.7:
+                ops.append(rng.choice("FC"))
+            elif r < 0.85 and not armed and not parked:
+                ops.append("P")
+                armed = True
+            elif parked or armed:
+                ops.append("G")
+                parked = armed = False
+            else:
+                ops.append(rng.choice("FC"))
+        out.append("QF %s %s" % (cap, ",".join(ops)))
+    return out
+
+
+def check_qf(case, obs):
+    """C06 through the wrappers: when a flush (on the queuing sink or through the client) returns Ok, every metric the
+    buffered sink had accepted before the flush was called is among the messages written so far"""
+    if obs.startswith("HARNESS-PANIC"):
+        return "the stack panicked: " + obs[:200]
+    t = case.split()
+    ops = t[2].split(",")
+    parts = dict(x.split(":", 1) for x in obs.split("|"))
+    res = parts["R"].split(",")
+    inner = parts["I"].split(",") if parts["I"] else []
+    msgs = [unhex(x) for x in parts["M"].split(";")] if parts["M"] else []
+    ns = [int(x) for x in parts["N"].split(",")]
+    accs = [int(x) for x in parts["A"].split(",")]
+    for j, op in enumerate(ops):
+        if op in ("F", "C") and res[j] == "k0":
+            before = accs[j - 1] if j else 0
+            accepted = [unhex(x[1:].split("=")[0]) for x in inner[:before] if x[0] == "E" and "=k" in x]
+            have = b"".join(msgs[:ns[j]])
+            for m in accepted:
+                if m and m not in have:
+                    return ("operation %d: flush %s returned Ok, but %r, which the buffered sink had accepted before, has not "
+                            "been written (%d messages so far)" % (j, "through the client" if op == "C" else "on the queuing sink",
+                                                                   m[:40], ns[j]))
+    return None
+
+
+def qf_model_case(case, obs):
+    """the calls that reached the buffered sink, in their real order, as an S case of the model"""
+    parts = dict(x.split(":", 1) for x in obs.split("|"))
+    inner = parts["I"].split(",") if parts.get("I") else []
+    ops = ",".join("F" if x[0] == "F" else x.split("=")[0] for x in inner) or "-"
+    return "S %s u %s" % (case.split()[1], ops)
+
+
 def gen_random(rng, n, faults, maxops=200):
     out = []
     for _ in range(n):
@@ -539,6 +604,28 @@ def run_writer_check(prop, tier, seed, faults, design_ref):
     except common.CheckFailure as e:
         rep.violation_noinput("correspondence run failed", {"error": str(e)})
         return rep.finish()
+    # C06: flushes through the client and through a queuing wrapper (real threads; the calls that reach the buffered sink
+    # are replayed in the model in their observed order)
+    qf_fail, qf_dis = [], []
+    if prop == "C06":
+        qf = gen_qf(rng, 2000 if thorough else 150)
+        try:
+            qimpl = common.run_harness("mlw", qf, shards=min(8, common.NCPU))
+            good = [(c, o) for c, o in zip(qf, qimpl) if not o.startswith("HARNESS-PANIC")]
+            qmodel = common.run_model("mlw", [qf_model_case(c, o) for c, o in good])
+        except common.CheckFailure as e:
+            rep.violation_noinput("correspondence run failed (QF family)", {"error": str(e)})
+            return rep.finish()
+        for c, o in zip(qf, qimpl):
+            v = check_qf(c, o)
+            if v:
+                qf_fail.append((len(c), c, o, v))
+        for (c, o), m in zip(good, qmodel):
+            parts = dict(x.split(":", 1) for x in o.split("|"))
+            inner_res = ",".join(x.split("=")[1] for x in parts["I"].split(",")) if parts["I"] else ""
+            if "R:%s|M:%s" % (inner_res, parts["M"]) != m:
+                qf_dis.append((len(c), c, o, m))
+        rep.cov["qf_cases"] = len(qf)
     # property clauses on the implementation's own observations
     with Pool(common.NCPU) as pool:
         verdicts = pool.map(_check_one, [(prop, c, o) for c, o in zip(cases, impl)], chunksize=2000)
@@ -564,6 +651,20 @@ def run_writer_check(prop, tier, seed, faults, design_ref):
         rep.violation_input("%s (%d failing cases; smallest shown)" % (v, len(bad_spy)),
                             {"bin": "mlw", "case": c, "implementation": o, "clause": v})
         bad = bad_spy
+    if qf_fail and not bad:
+        qf_fail.sort()
+        _, c, o, v = qf_fail[0]
+        rep.violation_input("%s (%d failing cases; smallest shown)" % (v, len(qf_fail)),
+                            {"bin": "mlw", "case": c, "implementation": o, "clause": v})
+        bad = qf_fail
+    if qf_dis and not bad:
+        qf_dis.sort()
+        _, c, o, m = qf_dis[0]
+        rep.violation_noinput(
+            "correspondence broken on %d QF cases: the buffered sink behind a queuing wrapper does not behave like the model "
+            "run on the calls that reached it" % len(qf_dis),
+            {"correspondence": "Writer.sink_init run on the observed inner calls vs client -> queuing -> buffered spy sink",
+             "theorems": rep.cov.get("theorems", []), "first_disagreeing_case": c, "implementation": o, "model": m})
     dis = [(case_size(c), c, i, m) for c, i, m in zip(cases, impl, model) if i != m]
     dis_spy = [(c, i, m) for c, i, m in zip(spy, impl_spy, model_spy) if i != m]
     if (dis or dis_spy) and not bad:
@@ -689,6 +790,9 @@ def check_C19(tier, seed):
 
 
 def _replay_judge(prop, case, obs):
+    if case.startswith("QF"):
+        v = check_qf(case, obs)
+        return [v] if v else []
     if case.startswith("S "):
         v = check_spy(case, obs)
         return [v] if v else []
